@@ -28,7 +28,7 @@ def main(argv=None):
             only = (r["rule"], r["instance"])
         mod = importlib.import_module(f"bvstatic.rules.{prop.lower()}")
         chk = Check(prop, args.tier, Repo(args.repo) if args.repo else Repo(), only=only)
-        mod.run(chk)
+        chk.guard(mod.run, chk)      # an extractor giving up in one property module must not mask what the generic clauses find
         from .rules.common import anchors_rule, pins_rule, signature_rule
         chk.guard(signature_rule, chk)
         chk.guard(pins_rule, chk)
